@@ -171,9 +171,9 @@ func c15Sequence(seq []string) (msg, kind string) {
 }
 
 func c15Sequential(env *report.Env, rep *report.Report) {
-	depth := 5
+	depth := 6
 	if env.Thorough() {
-		depth = 7
+		depth = 8
 	}
 	sec := rep.Add(&report.Section{Name: fmt.Sprintf("seq-all-sequences-depth%d", depth), Engine: "seqx", Exhaustive: true, Extra: map[string]int64{},
 		Rule: "every sequence over {install (server change + poll), Get(u1), Get(u2), NewUpdater, toggle builder-fails-next} up to the depth on a real Store, against a model of the level-triggered notification; non-trivial = sequences containing an install followed by a Get"})
@@ -453,7 +453,7 @@ func checkC15(t *testing.T, env *report.Env, rep *report.Report) {
 	c15Sequential(env, rep)
 	bound := 2
 	if env.Thorough() {
-		bound = 3
+		bound = 4
 	}
 	hx.ExploreScenarios(t, env, rep, "sched-installs-vs-gets-vs-newupdater", list, bound, true, nil)
 	// updaters on names that have to be looked up first, racing lookups and polls
